@@ -501,3 +501,45 @@ Proof.
     as [(_ & X)|[(_ & _ & X)|[(_ & _ & _ & X)|(_ & F1 & F2 & _)]]]; try (rewrite X; reflexivity).
   exfalso. unfold blen in *. destruct Hcap; nlia.
 Qed.
+
+(* ---------------------------------------------------------------- statements used by Props/C03.v *)
+Definition reach (c : cfg) (h : list op) : wstate := fst (run (step c) (init c) h).
+
+Lemma reach_inv : forall c h, names_ok h = true -> Inv1 c (reach c h).
+Proof. intros c h H. apply run_inv; [apply invb_init | assumption]. Qed.
+
+Lemma err_same_ns_of_not_ok : forall c w o, is_ok (snd (step_body c w o)) = false -> same_ns (clock w) w (fst (step_body c w o)).
+Proof.
+  intros c w o H. destruct (step_body c w o) as [w' [|e]] eqn:B; [discriminate|]. cbn [fst]. eapply step_err_same_ns; eassumption.
+Qed.
+
+Lemma no_dup_reach : forall c h g names, names_ok h = true -> group_names (reach c h) g = Some names ->
+  NoDup names /\ Forall (fun x => x <> None) names.
+Proof. intros c h g names H. apply inv_no_dup with (c := c). apply reach_inv. assumption. Qed.
+
+Lemma reject_dup_reach : forall c h o, names_ok h = true -> name_exists (reach c h) o ->
+  is_ok (snd (step_body c (reach c h) o)) = false /\
+  same_ns (clock (reach c h)) (reach c h) (fst (step_body c (reach c h) o)).
+Proof.
+  intros c h o H E. assert (X : is_ok (snd (step_body c (reach c h) o)) = false) by (apply step_reject_dup; [apply reach_inv|]; assumption).
+  split; [assumption | apply err_same_ns_of_not_ok; assumption].
+Qed.
+
+Lemma reject_missing_parent_any : forall c w o, parent_group w (op_parent o) = None ->
+  is_ok (snd (step_body c w o)) = false /\ same_ns (clock w) w (fst (step_body c w o)).
+Proof.
+  intros c w o H. assert (X : is_ok (snd (step_body c w o)) = false) by (apply step_reject_missing_parent; assumption).
+  split; [assumption | apply err_same_ns_of_not_ok; assumption].
+Qed.
+
+Lemma capacity_reach : forall c h o g names, names_ok h = true -> heap_name_ok (op_link_name o) = true ->
+  parent_group (reach c h) (op_parent o) = Some g -> group_names (reach c h) g = Some names ->
+  (snod_cap c <= blen names \/ new_heap_size (heap_cap c) < used_bytes names + blen (op_link_name o) + 1) ->
+  is_ok (snd (step_body c (reach c h) o)) = false /\
+  same_ns (clock (reach c h)) (reach c h) (fst (step_body c (reach c h) o)).
+Proof.
+  intros c h o g names H Hn P G K.
+  assert (X : is_ok (snd (step_body c (reach c h) o)) = false).
+  { eapply step_capacity; try eassumption; [apply reach_inv; assumption | apply heap_name_ok_iff; assumption]. }
+  split; [assumption | apply err_same_ns_of_not_ok; assumption].
+Qed.
